@@ -5,7 +5,7 @@ use crate::val::Val;
 use serde_json::Value;
 use std::panic::{catch_unwind, AssertUnwindSafe};
 
-pub const NREG: usize = 8;
+pub const NREG: usize = 20;
 
 pub trait Exec: Sc {
     fn exec(op: &str, f: &str, a: &[Val<Self>]) -> Option<Val<Self>>;
@@ -90,6 +90,10 @@ impl<S: Exec> Machine<S> {
     /// returns false when the program must stop here
     pub fn call(&mut self, op: &str, f: &str, args: &[usize], dst: usize) -> bool {
         let av: Vec<Val<S>> = args.iter().map(|&i| self.regs[i].clone()).collect();
+        if av.iter().any(|v| matches!(v, Val::Panic)) {
+            self.cut = Some("panic-argument".into());
+            return false;
+        }
         if S::KIND == Kind::Float && args.iter().any(|&i| self.surd[i]) && !SURD_AWARE.contains(&op) {
             self.cut = Some("surd-argument".into());
             return false;
